@@ -33,8 +33,14 @@ PLANS = {
                 '(T lines) or the state has a container to query (S lines); each case is distinct by construction (TLC emits '
                 'each generated transition and each distinct state once)',
         'assumptions': TREE_ASSUME,
+        'technique': 'TLC exhaustive exploration of Tree.tla (heap + edit API) with list-model refinement on every transition; every state and transition replayed on the real library with full heap projection compared',
+        'level_text': 'All histories inside the bounds collapse into the reachable state graph of the specification; TLC checks WellFormed and the '
+                      'list-model meaning of every call on every transition, and every transition and state is replayed on the real code with the whole '
+                      'heap (links, keys, values, flags, allocator blocks, results, query answers) compared. Right level because the property quantifies over histories.',
+        'level_note': 'bounded: node slots N<=3 (quick) / 4 (thorough), small key/value alphabets; completeness of the heap abstraction (DESIGN 4.2); TLC and the driver are trusted',
     },
 }
+NOT_CLAIMED = {}
 
 
 def run_custom(kind, prop, run, outdir, bins, seed, V, REPO):
